@@ -203,7 +203,7 @@ impl RTree {
             }
         };
         let stack: Vec<String> = self.open.iter().map(name).collect();
-        let afe: Vec<String> = self.afe.iter().map(|a| match a { Afe::Marker => "|".to_string(), Afe::El(n, _) => name(n) }).collect();
+        let afe: Vec<String> = self.afe.iter().map(|a| match a { Afe::Marker => "|".to_string(), Afe::El(n, t) => format!("{}{:?}", name(n), t.attrs) }).collect();
         let pending: String = self.pending_table_chars.iter().collect();
         let orig = if matches!(self.mode, Mode::Text | Mode::InTableText) { Some(format!("{:?}", self.orig_mode)) } else { None };
         let tmpl: Vec<String> = self.template_modes.iter().map(|m| format!("{m:?}")).collect();
